@@ -225,4 +225,15 @@ VARIANTS = [
     ('c01-iter-blank-not-stripped', 'C01', X12, "                line = line.lstrip()\n", "", B, 'C01.R11'),
     ('c01-iter-seg1-line', 'C01', X12, "                self._seg_error('SEG1', err_str, None, src_line=self.cur_line + 1)", "                self._seg_error('SEG1', err_str, None, src_line=self.cur_line)", B, 'C01.R11'),
     ('c01-iter-startswith-benign', 'C01', X12, "            if line.startswith(' '):", "            if line[:1] == ' ':", OK, None),
+    # ---------------------------------------------------------------- round 10 rules
+    ('c04-ctx-st-errors-dropped', 'C04', CTX, "        self.err_st.extend(errh.err_st)\n", "", B, 'C04.R12'),
+    ('c05-ele-node-to-st', 'C05', EH, "            self.cur_seg_node.elements.append(self.cur_ele_node)\n            self.ele_node_added = True", "            self.cur_st_node.elements.append(self.cur_ele_node)\n            self.ele_node_added = True", B, 'C05.R20'),
+    ('c06-999-ak9-seven-codes', 'C06', E99, "        for err_cde in err_codes[:5]:\n            seg_data.append(err_cde)", "        for err_cde in err_codes[:7]:\n            seg_data.append(err_cde)", B, 'C06.R10'),
+    ('c06-999-ik5-four-codes-benign', 'C06', E99, "        for err_code in err_codes[:5]:\n            seg_data.append(err_code)", "        for i, err_code in enumerate(err_codes):\n            if i >= 5:\n                break\n            seg_data.append(err_code)", OK, None),
+    ('c09-iterate-reversed', 'C09', CTX, "        for child in [x for x in self.children if x.type is not None]:\n            for a in child.iterate_segments():\n                yield a", "        for child in reversed([x for x in self.children if x.type is not None]):\n            for a in child.iterate_segments():\n                yield a", B, 'C09.R14'),
+    ('c13-century-49-benign', 'C13', VAL, "val = '20' + val if int(val[0:2]) < 50 else '19' + val", "val = '20' + val if int(val[0:2]) < 49 else '19' + val", OK, None),
+    ('c13-century-all-1900', 'C13', VAL, "val = '20' + val if int(val[0:2]) < 50 else '19' + val", "val = '19' + val", B, 'C13.R3'),
+    ('c15-exclude-tuple-benign', 'C15', 'pyx12/codes.py', "exclude.split(',') if exclude is not None else []", "tuple(exclude.split(',')) if exclude is not None else ()", OK, None),
+    ('c17-eq-is-seg-id', 'C17', PTH, "self.seg_id == other.seg_id", "self.seg_id is other.seg_id", B, 'C17.R10'),
+    ('c07-gs-error-concat', 'C07', WLK, "            seg_str = '%s*%s' % (seg_data.get_seg_id(), seg_data.get_value('01'))", "            seg_str = 'X*' + seg_data.get_value('01')", B, 'C07.R2'),
 ]
